@@ -2,6 +2,7 @@ package c02
 
 import (
 	"bytes"
+	"encoding/json"
 	"fmt"
 	bt "github.com/libsv/go-bt/v2"
 	"testing"
@@ -69,9 +70,25 @@ func (e Edit) applyModel(m *ref.Tx) {
 		if !m.In[i].UnlockNil {
 			m.In[i].Unlock = append(append(pbt.Hex{}, m.In[i].Unlock...), e.B...)
 		}
+	case "rejson": // (tenth round) the input OBJECT is pointed at another outpoint by decoding a JSON document into it
+		i := e.At % len(m.In)
+		m.In[i].TxID, m.In[i].Vout, m.In[i].Seq = rejsonTxID(e.B), uint32(e.U64), uint32(e.U64>>32)
+		m.In[i].Unlock, m.In[i].UnlockNil = pbt.Hex{}, false
 	case "elsewhere": // the caller works on another transaction it parsed; this one does not change
 	case "foreign": // some other exported method is called; this transaction does not change
 	}
+}
+
+// rejsonTxID derives the 32-byte txid a "rejson" edit points the input at.
+func rejsonTxID(b []byte) pbt.Hex {
+	id := make(pbt.Hex, 32)
+	for i := range id {
+		id[i] = byte(0x40 + i)
+		if len(b) > 0 {
+			id[i] ^= b[i%len(b)]
+		}
+	}
+	return id
 }
 
 // elsewhereBytes is an unrelated unsigned transaction (two inputs with empty unlocking scripts).
@@ -131,7 +148,7 @@ func checkEdits(ctx *pbt.Ctx, c EditCase) error {
 	}
 	for i, e := range c.Edits {
 		switch e.Kind {
-		case "seq", "vout", "prevsats", "prevscript", "appendunlock":
+		case "seq", "vout", "prevsats", "prevscript", "appendunlock", "rejson":
 			target := roots[e.At%len(m.In)]
 			for j := range m.In {
 				if roots[j] == target {
@@ -173,6 +190,11 @@ func checkEdits(ctx *pbt.Ctx, c EditCase) error {
 		case "dupin":
 			if len(tx.Inputs) < 8 {
 				tx.Inputs = append(tx.Inputs, tx.Inputs[e.At%len(tx.Inputs)])
+			}
+		case "rejson":
+			doc := fmt.Sprintf(`{"unlockingScript":"","txid":"%x","vout":%d,"sequence":%d}`, []byte(rejsonTxID(e.B)), uint32(e.U64), uint32(e.U64>>32))
+			if jerr := json.Unmarshal([]byte(doc), tx.Inputs[e.At%len(tx.Inputs)]); jerr != nil {
+				return fmt.Errorf("harness: %v", jerr)
 			}
 		case "appendunlock":
 			if in := tx.Inputs[e.At%len(tx.Inputs)]; in.UnlockingScript != nil {
@@ -221,7 +243,7 @@ func TestEdits(t *testing.T) {
 			n := rapid.IntRange(1, 4).Draw(t, "n_edits")
 			for i := 0; i < n; i++ {
 				e := Edit{
-					Kind: rapid.SampledFrom([]string{"seq", "seq", "vout", "sats", "sats", "oscript", "prevsats", "prevscript", "version", "locktime", "dupin", "appendunlock", "elsewhere", "elsewhere", "foreign", "foreign", "foreign", "foreign"}).Draw(t, "kind"),
+					Kind: rapid.SampledFrom([]string{"seq", "seq", "vout", "sats", "sats", "oscript", "prevsats", "prevscript", "version", "locktime", "dupin", "appendunlock", "rejson", "rejson", "elsewhere", "elsewhere", "foreign", "foreign", "foreign", "foreign"}).Draw(t, "kind"),
 					At:   rapid.IntRange(0, 3).Draw(t, "at"), U64: gen.U64(t, "val"), B: gen.BytesUpTo(t, 30, "bytes")}
 				if e.Kind == "foreign" {
 					f := genForeign(t)
